@@ -60,10 +60,8 @@ def judge(ctx, name, events, zst_filter=None):
 def gen(ctx):
     cfgs = ["Gen_Volatile.quick.cfg"] if ctx.tier == "quick" else ["Gen_Volatile.quick.cfg", "Gen_Volatile.A.cfg", "Gen_Volatile.B.cfg"]
     for cfg in cfgs:
-        r = tlc_must_pass(TLA, os.path.join(SPEC, cfg), "gen_volatile_" + ctx.pid, workers=8, timeout=2400)
+        r, inits, edges = gen_run(TLA, os.path.join(SPEC, cfg), "gen_volatile_" + ctx.pid, workers=8, timeout=2400)
         ctx.add_mc(r, cfg)
-        inits = parse_tagged(r.out_path, "INIT")
-        edges = parse_tagged(r.out_path, "EDGE")
         hists, covered = edges_to_histories(inits, edges)
         prog = []
         for h in hists:
@@ -114,6 +112,12 @@ def rnd_history(rnd, nops, zst):
             return rnd.choice([0, 0, 1, 2, 3, 4, 7, 8, 9, 10, 16, 17])
         return rnd.choice(BIG)
 
+    def wrap_pair():
+        """(offset, count) whose sum wraps modulo 2^64 to a small number: a bound check done with wrapping arithmetic
+        accepts these (seeded change C01-m3)."""
+        o = rnd.choice([1, 1, 2, 3, 4, 7, 8, 9, 16])
+        return o, (1 << 64) - o + rnd.choice([0, 0, 1, 2, 3, -1, o - 1]) % o      # count < 2^64, o + count = 2^64 + (0 .. o-1)
+
     def blen():
         return rnd.choice([0, 0, 1, 2, 3, 4, 7, 8, 9, 10, 15, 16, 17, 33, {"len": 0}, {"len": 1}, {"len": -1}, {"len": 3}])
 
@@ -139,8 +143,12 @@ def rnd_history(rnd, nops, zst):
         if k < 0.30:      # derivations
             op = rnd.choice(["subslice", "subslice", "get_slice", "offset", "split_at", "get_ref", "get_array_ref",
                              "get_array_ref", "to_slice", "ref_at", "array_from_slice", "as_volatile_slice", "root", "root"])
+            if root == "region" and rnd.random() < 0.4:
+                prog.append({"op": "root", "a": {}})       # exercise the region's own VolatileMemory implementation
             if op in ("subslice", "get_slice"):
                 a = {"o": pos(), "c": cnt()}
+                if rnd.random() < 0.2:
+                    a["o"], a["c"] = wrap_pair()
             elif op == "offset":
                 a = {"c": pos()}
             elif op == "split_at":
@@ -159,6 +167,8 @@ def rnd_history(rnd, nops, zst):
                              "aligned_as_mut"])
             if op == "compute_end_offset":
                 a = {"base": pos(), "off": cnt()}
+                if rnd.random() < 0.1:
+                    a["base"], a["off"] = wrap_pair()
             elif op == "get_atomic_ref":
                 a = {"o": pos(), "esz": rnd.choice([1, 2, 4, 8])}
             elif op in ("aligned_as_ref", "aligned_as_mut"):
@@ -170,6 +180,7 @@ def rnd_history(rnd, nops, zst):
             op = rnd.choice(["write", "write", "read", "write_slice", "read_slice", "write_obj", "read_obj", "store", "load",
                              "copy_to", "copy_from", "copy_to_volatile_slice", "read_volatile_from",
                              "read_exact_volatile_from", "write_volatile_to", "write_all_volatile_to", "read_from_bad_fd",
+                             "write_to_cursor", "write_all_to_cursor",
                              "ref_store", "ref_load", "arr_load", "arr_store", "arr_copy_to", "arr_copy_from",
                              "arr_copy_to_volatile_slice", "bitmap_reset"])
             if op in ("write", "write_slice"):
@@ -196,6 +207,10 @@ def rnd_history(rnd, nops, zst):
                 a = {"addr": pos(), "src": buf(rnd.choice([0, 1, 2, 5, 8, 9, 17, 40])), "count": cnt()}
             elif op in ("write_volatile_to", "write_all_volatile_to", "read_from_bad_fd"):
                 a = {"addr": pos(), "count": cnt()}
+                if rnd.random() < 0.06:
+                    a["addr"], a["count"] = wrap_pair()
+            elif op in ("write_to_cursor", "write_all_to_cursor"):
+                a = {"addr": pos(), "count": cnt(), "room": rnd.choice([0, 0, 1, 2, 3, 7, 8, 9, 16, 40])}
             elif op == "ref_store":
                 a = {"buf": buf({"len": 0})}
             elif op == "arr_store":
